@@ -597,13 +597,13 @@ func (m *model) eval(s Step) mres {
 	a := s.Args
 	acc := s.Acc
 	needG := (strings.HasPrefix(acc, "g") && acc != "gxcall") || acc == "hgget" || acc == "higet" || acc == "hgset"
-	needT := strings.HasPrefix(acc, "t") || acc == "htl"
+	needT := strings.HasPrefix(acc, "t") || acc == "htl" || acc == "rtcall"
 	needM := strings.HasPrefix(acc, "load") || strings.HasPrefix(acc, "store") || strings.HasPrefix(acc, "m") || strings.HasPrefix(acc, "hm") || acc == "xcall"
-	needF := acc == "call" || acc == "xcall" || acc == "hfcall" || acc == "gxcall"
+	needF := acc == "call" || acc == "rcall" || acc == "xcall" || acc == "hfcall" || acc == "gxcall"
 	if s.Idx < 0 || (needG && s.Idx >= len(in.globals)) || (needT && s.Idx >= len(in.tables)) || (needM && in.mem == nil) || (needF && s.Idx >= len(in.funcs)) {
 		return mres{skip: true}
 	}
-	if (acc == "gcall" || acc == "tcall" || acc == "htl") && (s.Sig < 0 || s.Sig >= len(sigs)) {
+	if (acc == "gcall" || acc == "tcall" || acc == "rtcall" || acc == "htl") && (s.Sig < 0 || s.Sig >= len(sigs)) {
 		return mres{skip: true}
 	}
 	var g *mGlobal
@@ -751,7 +751,7 @@ func (m *model) eval(s Step) mres {
 			t.lastW = who
 		}
 		return i32s(old)
-	case "tcall":
+	case "tcall", "rtcall":
 		if t.elem != wasmenc.FuncRef {
 			return mres{skip: true}
 		}
@@ -814,7 +814,7 @@ func (m *model) eval(s Step) mres {
 			return mres{skip: true}
 		}
 		return i32s(m.grow(mm, uint32(d), who))
-	case "call", "hfcall":
+	case "call", "rcall", "hfcall":
 		if in.reexportHazard(fmt.Sprintf("f%d", s.Idx)) {
 			m.reexpUse++
 		}
